@@ -1,4 +1,5 @@
 import Driver.C14
+import Driver.C16
 /-
 siot-model: line-protocol driver. Reads "<PROP> <case...> => <impl observation>" lines on stdin,
 replays each case on the Lean model and prints
@@ -12,6 +13,7 @@ open Driver
 def dispatch (prop : String) (args : List String) (impl : String) : Verdict :=
   match prop with
   | "C14" => C14.handle args impl
+  | "C16" => C16.handle args impl
   | _ => bad ("unknown property " ++ prop)
 
 def processLine (line : String) : String :=
